@@ -120,6 +120,13 @@ func (s *composeSlice) build() {
 				OnRetryScheduled(func(e failsafe.ExecutionScheduledEvent[int]) { s.emit("rp.onRetryScheduled"+fl(e), pos, e.Attempts(), e.Executions()) }).
 				OnRetry(func(e failsafe.ExecutionEvent[int]) { s.emit("rp.onRetry"+fl(e), pos, e.Attempts(), e.Executions()) })
 			s.policies = append(s.policies, b.Build())
+			// a built policy is a snapshot of its builder (retry, fallback, timeout, hedge copy their configuration in Build):
+			// what the builder is told afterwards must not reach it. The handle / abort conditions and OnSuccess / OnFailure
+			// live behind a pointer the copy shares ("TODO copy base fields" in the source), so those are left alone.
+			decoy := func(e failsafe.ExecutionEvent[int]) { s.emit("DECOY.rp", pos, e.Attempts(), e.Executions()) }
+			b.WithMaxRetries(0).OnAbort(decoy).OnRetriesExceeded(decoy).OnRetry(decoy).
+				OnRetryScheduled(func(e failsafe.ExecutionScheduledEvent[int]) { s.emit("DECOY.rp", pos, e.Attempts(), e.Executions()) })
+			_ = b.Build()
 		case "breaker":
 			// breakers are built at registration (they carry state across runs); listeners need the position of the
 			// policy, so a breaker instance may be used at one position only per case
@@ -147,6 +154,7 @@ func (s *composeSlice) build() {
 				OnSuccess(func(e failsafe.ExecutionEvent[int]) { s.emit("fb.onSuccess"+fl(e), pos, e.Attempts(), e.Executions()) }).
 				OnFallbackExecuted(func(e failsafe.ExecutionDoneEvent[int]) { s.emit("fb.onFallbackExecuted", pos, e.Attempts(), e.Executions()) })
 			s.policies = append(s.policies, b.Build())
+			_ = b.OnFallbackExecuted(func(e failsafe.ExecutionDoneEvent[int]) { s.emit("DECOY.fb", pos, e.Attempts(), e.Executions()) }).Build()
 		case "cache":
 			id := int(atoi(t[1]))
 			b := cachepolicy.Builder[int](s.caches[id])
@@ -161,15 +169,18 @@ func (s *composeSlice) build() {
 				OnResultCached(func(e failsafe.ExecutionEvent[int]) { s.emit("ca.onCache"+fl(e), pos, e.Attempts(), e.Executions()) })
 			s.policies = append(s.policies, b.Build())
 		case "timeout":
-			to := timeout.Builder[int](composeTimeout).OnTimeoutExceeded(func(e failsafe.ExecutionDoneEvent[int]) {
+			tb := timeout.Builder[int](composeTimeout).OnTimeoutExceeded(func(e failsafe.ExecutionDoneEvent[int]) {
 				s.emit("to.onTimeoutExceeded", pos, e.Attempts(), e.Executions())
-			}).Build()
+			})
+			to := tb.Build()
 			s.policies = append(s.policies, to)
+			_ = tb.OnTimeoutExceeded(func(e failsafe.ExecutionDoneEvent[int]) { s.emit("DECOY.to", pos, e.Attempts(), e.Executions()) }).Build()
 		case "hedge":
 			b := hedgepolicy.BuilderWithDelay[int](composeHedgeDelay).WithMaxHedges(int(atoi(t[1])))
 			applyConds(t[2], func(e ...error) { b.CancelOnErrors(e...) }, func(a ...any) { b.CancelOnErrorTypes(a...) }, func(r int) { b.CancelOnResult(r) }, func(p func(int, error) bool) { b.CancelIf(p) })
 			b.OnHedge(func(e failsafe.ExecutionEvent[int]) { s.emit("hp.onHedge"+fl(e), pos, e.Attempts(), e.Executions()) })
 			s.policies = append(s.policies, b.Build())
+			_ = b.WithMaxHedges(0).OnHedge(func(e failsafe.ExecutionEvent[int]) { s.emit("DECOY.hp", pos, e.Attempts(), e.Executions()) }).Build()
 		}
 	}
 }
@@ -624,6 +635,7 @@ func genCompose(r *rand.Rand, n int, tier string, emit func(string) string) {
 			}
 			var parts []string
 			blockedSeen := false
+			firstBlocked := 0
 			blockedCount := 0
 			sleepCount := 0
 			for i, l := 0, r.Intn(9); i < l; i++ {
@@ -641,6 +653,9 @@ func genCompose(r *rand.Rand, n int, tier string, emit func(string) string) {
 					}
 				} else if !hedgeOuter && (hasTimeout || (hasHedge && hedgeAny && blockedCount < hedgeMax)) && r.Intn(4) == 0 {
 					it += ",B"
+					if !blockedSeen {
+						firstBlocked = i + 1
+					}
 					blockedSeen = true
 					blockedCount++
 				}
@@ -656,7 +671,7 @@ func genCompose(r *rand.Rand, n int, tier string, emit func(string) string) {
 				op = "runa"
 			}
 			x := ""
-			if !blockedSeen && r.Intn(4) == 0 {
+			if (!blockedSeen && r.Intn(4) == 0) || (blockedSeen && !hasHedge && r.Intn(2) == 0) {
 				// a scripted cancellation point (C08): inside the k-th invocation, inside the k-th OnRetryScheduled listener, or
 				// before the start (only where no select races an already-cancelled context: no bulkhead / limiter / hedge)
 				cause := "ctx"
@@ -664,10 +679,22 @@ func genCompose(r *rand.Rand, n int, tier string, emit func(string) string) {
 					cause = "async"
 				}
 				point := pick(r, "fn", "fn", "sched")
+				if blockedSeen {
+					// after an attempt its Timeout cut short, only a later invocation is a cancellation point: the Timeout's
+					// stored result stays the execution's cancel result until the next attempt is initialised, so a cancellation
+					// in between is a second source in the same attempt (outside what C08 quantifies over)
+					point = "fn"
+				}
 				if cause == "ctx" && nbh == 0 && nrl == 0 && !hasHedge && r.Intn(4) == 0 {
 					point = "pre"
 				}
-				x = fmt.Sprintf(" x=%s:%d:%s", point, 1+r.Intn(3), cause)
+				k := 1 + r.Intn(3)
+				if blockedSeen && r.Intn(2) == 0 {
+					// the invocation after the first one a Timeout cut short: the cancel result that Timeout stored must not
+					// be what a cancellation in a later attempt reports (C07: the limit applies afresh to each attempt)
+					k = firstBlocked + 1 + r.Intn(2)
+				}
+				x = fmt.Sprintf(" x=%s:%d:%s", point, k, cause)
 			}
 			emit(fmt.Sprintf("compose %s %s %s%s", op, pick(r, "-", "-", "k1", "k2", "''"), st, x))
 		}
